@@ -315,3 +315,291 @@ void h_FreeZeroObjVariable(void)
    CANARY();
 }
 #endif
+
+/* ------------------------------------------------------------------------------------------- */
+#ifdef INST_ZeroObjColSingleton
+/* re-inserts column m_j (zero objective, only in row m_i; the row stayed in the LP with relaxed sides): pure
+ * column step, delta 0.  Either the column is non-basic at a bound / fixed / free-at-zero, or - only if the row
+ * was BASIC - the column becomes BASIC and the row takes the bound.
+ * Pre (call site): a_ij = m_row[m_j] is a proper nonzero; the row is not free (a free row is removed by the
+ * FreeConstraintPS pushed right after), so its status is ON_LOWER, ON_UPPER, FIXED or BASIC.
+ * Throws: SPxException "infinite activities" only if s[m_i] >= infinity; the internal-error throws XMAISM01/02/04
+ * are unreachable; XMAISM03 (row BASIC, but neither a bound of x_j nor a finite implied bound fits) depends on
+ * computed values and is allowed exactly when the row is BASIC. */
+#define AIJ SV_GET(row_idx, row_val, row_n, m_j)
+#define FREECOL (m_lower <= -INF && m_upper >= INF)
+void w_ZeroObjColSingleton(PS_PARAMS, int m_j, int m_i, int m_old_j, double m_lhs, double m_rhs, double m_lower, double m_upper,
+                           int* row_idx, double* row_val, int row_n)
+__CPROVER_requires(PS_WF && COL_SHIFT_REQ && 0 <= m_i && m_i < nR && SV_WF(row_idx, row_val, row_n) && (AIJ > 0 || AIJ < 0))
+__CPROVER_requires(rst[m_i] == ON_LOWER || rst[m_i] == ON_UPPER || rst[m_i] == FIXED || rst[m_i] == BASIC)
+__CPROVER_requires(g_may_throw == ((s[m_i] >= INF ? 1 : 0) | (rst[m_i] == BASIC ? 2 : 0)))
+__CPROVER_requires(GHOST_COL && GHOST_ROW)
+__CPROVER_assigns(W(x), W(s), W(r), W(cst), W(rst))
+__CPROVER_ensures(COL_DELTA + B(rst[m_i]) - B(__CPROVER_old(rst[m_i])) == 0)                 /* (a) */
+__CPROVER_ensures(COL_SHIFT_UNDO)                                                            /* (b) */
+__CPROVER_ensures(DEFINED(cst[m_j]) && DEFINED(rst[m_i]))                                    /* (d) */
+__CPROVER_ensures(__CPROVER_old(rst[m_i]) != BASIC ==> (rst[m_i] == __CPROVER_old(rst[m_i]) && NONBASIC(cst[m_j])))
+__CPROVER_ensures(cst[m_j] == BASIC ==> (__CPROVER_old(rst[m_i]) == BASIC && (rst[m_i] == ON_LOWER || rst[m_i] == ON_UPPER)))
+__CPROVER_ensures(__CPROVER_old(rst[m_i]) == ON_LOWER ==> cst[m_j] == (FREECOL ? ZERO : m_lower == m_upper ? FIXED : AIJ > 0 ? ON_UPPER : ON_LOWER))
+__CPROVER_ensures(__CPROVER_old(rst[m_i]) == ON_UPPER ==> cst[m_j] == (FREECOL ? ZERO : m_lower == m_upper ? FIXED : AIJ > 0 ? ON_LOWER : ON_UPPER))
+__CPROVER_ensures(__CPROVER_old(rst[m_i]) == FIXED ==> cst[m_j] == (FREECOL ? ZERO : FIXED))
+__CPROVER_ensures(cst[m_j] == ON_UPPER ==> SAME(x[m_j], m_upper))
+__CPROVER_ensures(cst[m_j] == ON_LOWER ==> SAME(x[m_j], m_lower))
+__CPROVER_ensures(cst[m_j] == ZERO ==> x[m_j] == 0.0)
+__CPROVER_ensures((g_kc != m_j && g_kc != m_old_j) ==> COL_UNCHANGED)                        /* (c) */
+__CPROVER_ensures(g_kr != m_i ==> ROW_UNCHANGED)
+__CPROVER_ensures(SAME(y[g_kr], v_y))
+;
+void h_ZeroObjColSingleton(void)
+{
+   PS_LOCALS; int m_j, m_i, m_old_j, row_n; double m_lhs, m_rhs, m_lower, m_upper; int row_idx[CAP]; double row_val[CAP];
+   havoc_ghosts(); PS_GHOST_PTRS;
+   w_ZeroObjColSingleton(PS_ARGS, m_j, m_i, m_old_j, m_lhs, m_rhs, m_lower, m_upper, row_idx, row_val, row_n);
+   CANARY();
+}
+#endif
+
+/* ------------------------------------------------------------------------------------------- */
+#ifdef INST_FreeColSingleton
+/* re-inserts row m_i together with the free column singleton m_j that was substituted out: the column is BASIC
+ * (reduced cost 0), the row sits on the side it was fixed to: one row, one more BASIC. */
+void w_FreeColSingleton(PS_PARAMS, int m_j, int m_i, int m_old_j, int m_old_i, double m_obj, double m_lRhs, int m_onLhs, int m_eqCons,
+                        int* row_idx, double* row_val, int row_n)
+__CPROVER_requires(PS_WF && COL_SHIFT_REQ && ROW_SHIFT_REQ && SV_WF(row_idx, row_val, row_n) && g_n == row_n)
+__CPROVER_requires(GHOST_COL && GHOST_ROW)
+__CPROVER_assigns(W(x), W(y), W(s), W(r), W(cst), W(rst))
+__CPROVER_ensures(ROW_DELTA + COL_DELTA == 1)                                                /* (a) */
+__CPROVER_ensures(ROW_SHIFT_UNDO && COL_SHIFT_UNDO)                                          /* (b) */
+__CPROVER_ensures(cst[m_j] == BASIC && r[m_j] == 0.0)                                        /* (d) */
+__CPROVER_ensures(rst[m_i] == (m_eqCons ? FIXED : m_onLhs ? ON_LOWER : ON_UPPER) && SAME(s[m_i], m_lRhs))
+__CPROVER_ensures((g_kr != m_i && g_kr != m_old_i) ==> ROW_UNCHANGED)                        /* (c) */
+__CPROVER_ensures((g_kc != m_j && g_kc != m_old_j) ==> COL_UNCHANGED)
+;
+void h_FreeColSingleton(void)
+{
+   PS_LOCALS; int m_j, m_i, m_old_j, m_old_i, m_onLhs, m_eqCons, row_n; double m_obj, m_lRhs; int row_idx[CAP]; double row_val[CAP];
+   havoc_ghosts(); PS_GHOST_PTRS;
+   w_FreeColSingleton(PS_ARGS, m_j, m_i, m_old_j, m_old_i, m_obj, m_lRhs, m_onLhs, m_eqCons, row_idx, row_val, row_n);
+   CANARY();
+}
+#endif
+
+/* ------------------------------------------------------------------------------------------- */
+#ifdef INST_MultiAggregation
+/* re-inserts row m_i and the multi-aggregated column m_j: column BASIC (reduced cost 0), row non-basic, slack 0 */
+void w_MultiAggregation(PS_PARAMS, int m_j, int m_i, int m_old_j, int m_old_i, double m_upper, double m_lower, double m_obj,
+                        double m_const, int m_onLhs, int m_eqCons, int* row_idx, double* row_val, int row_n,
+                        int* col_idx, double* col_val, int col_n)
+__CPROVER_requires(PS_WF && COL_SHIFT_REQ && ROW_SHIFT_REQ && SV_WF(row_idx, row_val, row_n) && SV_WF(col_idx, col_val, col_n)
+                   && g_n == row_n && g_n2 == col_n)
+__CPROVER_requires(GHOST_COL && GHOST_ROW)
+__CPROVER_assigns(W(x), W(y), W(s), W(r), W(cst), W(rst))
+__CPROVER_ensures(ROW_DELTA + COL_DELTA == 1)                                                /* (a) */
+__CPROVER_ensures(ROW_SHIFT_UNDO && COL_SHIFT_UNDO)                                          /* (b) */
+__CPROVER_ensures(cst[m_j] == BASIC && r[m_j] == 0.0)                                        /* (d) */
+__CPROVER_ensures(rst[m_i] == (m_eqCons ? FIXED : m_onLhs ? ON_LOWER : ON_UPPER) && s[m_i] == 0.0)
+__CPROVER_ensures((g_kr != m_i && g_kr != m_old_i) ==> ROW_UNCHANGED)                        /* (c) */
+__CPROVER_ensures((g_kc != m_j && g_kc != m_old_j) ==> COL_UNCHANGED)
+;
+void h_MultiAggregation(void)
+{
+   PS_LOCALS; int m_j, m_i, m_old_j, m_old_i, m_onLhs, m_eqCons, row_n, col_n; double m_upper, m_lower, m_obj, m_const;
+   int row_idx[CAP]; double row_val[CAP]; int col_idx[CAP]; double col_val[CAP];
+   havoc_ghosts(); PS_GHOST_PTRS;
+   w_MultiAggregation(PS_ARGS, m_j, m_i, m_old_j, m_old_i, m_upper, m_lower, m_obj, m_const, m_onLhs, m_eqCons, row_idx, row_val, row_n,
+                      col_idx, col_val, col_n);
+   CANARY();
+}
+#endif
+
+/* ------------------------------------------------------------------------------------------- */
+#ifdef INST_Aggregation
+/* re-inserts doubleton equation m_i and the aggregated column m_j (x_j expressed through x_act, act = the other
+ * column of the row).  Row non-basic (ON_UPPER); either x_j is BASIC, or - if x_act sits on a bound that only the
+ * aggregation had implied - x_act becomes BASIC and x_j goes to its own bound: one row, one more BASIC.
+ * Pre (aggregateVars): the row has exactly two entries, m_j and act != m_j.
+ * The internal-error throw ("unexpected basis status") depends on computed values; it is allowed exactly when
+ * x_act is non-basic at a bound (ON_UPPER / ON_LOWER / FIXED), i.e. where the swap is attempted. */
+#define ACT (row_idx[0] == m_j ? row_idx[1] : row_idx[0])
+/* status of x_act when the step starts (its entry still sits at m_j if act is the last column) */
+#define ACT_ST0 ((ACT == m_old_j && m_j != m_old_j) ? cst[m_j] : cst[ACT])
+void w_Aggregation(PS_PARAMS, int m_j, int m_i, int m_old_j, int m_old_i, double m_upper, double m_lower, double m_obj,
+                   double m_oldupper, double m_oldlower, double m_rhs, int* row_idx, double* row_val, int row_n,
+                   int* col_idx, double* col_val, int col_n)
+__CPROVER_requires(PS_WF && COL_SHIFT_REQ && ROW_SHIFT_REQ && SV_WF(row_idx, row_val, row_n) && SV_WF(col_idx, col_val, col_n) && g_n == col_n)
+__CPROVER_requires(row_n == 2 && (row_idx[0] == m_j) != (row_idx[1] == m_j) && 0 <= ACT && ACT <= m_old_j)
+__CPROVER_requires(g_a == ACT && g_b == m_j && GHOST_DIMS && v_cs2 == ACT_ST0 && DEFINED(v_cs2)
+                   && g_may_throw == ((v_cs2 == ON_UPPER || v_cs2 == ON_LOWER || v_cs2 == FIXED) ? 2 : 0))
+__CPROVER_requires(GHOST_COL && GHOST_ROW)
+__CPROVER_assigns(W(x), W(y), W(s), W(r), W(cst), W(rst))
+/* (a): row entries {m_i, m_old_i} and column entries {m_j, m_old_j, act} */
+__CPROVER_ensures(ROW_DELTA + B(cst[m_j]) + (m_j != m_old_j && g_a != m_old_j ? B(cst[m_old_j]) - B(__CPROVER_old(cst[m_j])) : 0)
+                  + B(cst[g_a]) - B(v_cs2) == 1)
+__CPROVER_ensures(ROW_SHIFT_UNDO)                                                            /* (b) */
+__CPROVER_ensures((m_j != m_old_j && g_a != m_old_j) ==> (SAME(x[m_old_j], __CPROVER_old(x[m_j])) && SAME(r[m_old_j], __CPROVER_old(r[m_j]))
+                                                        && cst[m_old_j] == __CPROVER_old(cst[m_j])))
+__CPROVER_ensures(m_j != m_old_j ==> SAME(x[m_old_j], __CPROVER_old(x[m_j])))
+__CPROVER_ensures(rst[m_i] == ON_UPPER && SAME(s[m_i], m_rhs) && r[m_j] == 0.0)             /* (d) */
+__CPROVER_ensures(cst[m_j] == BASIC || (NONBASIC(cst[m_j]) && cst[m_j] != FIXED && cst[g_a] == BASIC && r[g_a] == 0.0 && v_cs2 != BASIC))
+__CPROVER_ensures(cst[m_j] == BASIC ==> cst[g_a] == v_cs2)
+__CPROVER_ensures(DEFINED(cst[m_j]) && DEFINED(cst[g_a]))
+__CPROVER_ensures((g_kr != m_i && g_kr != m_old_i) ==> ROW_UNCHANGED)                        /* (c) */
+__CPROVER_ensures((g_kc != m_j && g_kc != m_old_j && g_kc != g_a) ==> COL_UNCHANGED)
+;
+void h_Aggregation(void)
+{
+   PS_LOCALS; int m_j, m_i, m_old_j, m_old_i, row_n, col_n; double m_upper, m_lower, m_obj, m_oldupper, m_oldlower, m_rhs;
+   int row_idx[CAP]; double row_val[CAP]; int col_idx[CAP]; double col_val[CAP];
+   havoc_ghosts(); PS_GHOST_PTRS; gp_i1 = row_idx;
+   w_Aggregation(PS_ARGS, m_j, m_i, m_old_j, m_old_i, m_upper, m_lower, m_obj, m_oldupper, m_oldlower, m_rhs, row_idx, row_val, row_n,
+                 col_idx, col_val, col_n);
+   CANARY();
+}
+#endif
+
+/* ------------------------------------------------------------------------------------------- */
+#ifdef INST_DoubletonEquation
+/* A column singleton x_j in a doubleton equation (row m_i: x_j, x_k) was made free by moving its bounds onto x_k.
+ * No index moves.  If x_k sits (non-basic) on a bound that only came from x_j, x_k becomes BASIC (reduced cost 0)
+ * and x_j goes to the corresponding bound; otherwise nothing changes: delta 0.
+ * Pre (call site, simplifyCols step 5 falls through to step 6): the FreeColSingletonPS of the same x_j is pushed
+ * right after this step, hence executed right before it, and leaves x_j BASIC. */
+#define CH (cst[m_k] == BASIC && __CPROVER_old(cst[m_k]) != BASIC)
+void w_DoubletonEquation(PS_PARAMS, int m_j, int m_k, int m_i, int m_maxSense, int m_jFixed, double m_jObj, double m_kObj, double m_aij,
+                         int m_strictLo, int m_strictUp, double m_newLo, double m_newUp, double m_oldLo, double m_oldUp,
+                         double m_Lo_j, double m_Up_j, double m_lhs, double m_rhs, int* col_idx, double* col_val, int col_n)
+__CPROVER_requires(PS_WF && 0 <= m_j && m_j < nC && 0 <= m_k && m_k < nC && m_j != m_k && 0 <= m_i && m_i < nR
+                   && SV_WF(col_idx, col_val, col_n) && g_n == col_n)
+__CPROVER_requires(cst[m_j] == BASIC && DEFINED(cst[m_k]))
+__CPROVER_requires(GHOST_COL && GHOST_ROW)
+__CPROVER_assigns(W(y), W(r), W(cst))
+__CPROVER_ensures(B(cst[m_j]) + B(cst[m_k]) == B(__CPROVER_old(cst[m_j])) + B(__CPROVER_old(cst[m_k])))     /* (a) */
+__CPROVER_ensures(CH ==> ((cst[m_j] == FIXED || cst[m_j] == ON_LOWER || cst[m_j] == ON_UPPER) && r[m_k] == 0.0       /* (d) */
+                          && (m_jFixed ==> cst[m_j] == FIXED) && (!m_jFixed ==> cst[m_j] != FIXED)
+                          && (__CPROVER_old(cst[m_k]) == ON_LOWER || __CPROVER_old(cst[m_k]) == ON_UPPER || __CPROVER_old(cst[m_k]) == FIXED)))
+__CPROVER_ensures(!CH ==> (cst[m_j] == BASIC && cst[m_k] == __CPROVER_old(cst[m_k]) && SAME(y[m_i], __CPROVER_old(y[m_i]))
+                           && SAME(r[m_j], __CPROVER_old(r[m_j])) && SAME(r[m_k], __CPROVER_old(r[m_k]))))
+__CPROVER_ensures((g_kc != m_j && g_kc != m_k) ==> COL_UNCHANGED)                            /* (c) */
+__CPROVER_ensures(SAME(x[g_kc], v_x))
+__CPROVER_ensures(g_kr != m_i ==> ROW_UNCHANGED)
+__CPROVER_ensures(SAME(s[g_kr], v_s) && rst[g_kr] == v_rs)
+;
+void h_DoubletonEquation(void)
+{
+   PS_LOCALS; int m_j, m_k, m_i, m_maxSense, m_jFixed, m_strictLo, m_strictUp, col_n;
+   double m_jObj, m_kObj, m_aij, m_newLo, m_newUp, m_oldLo, m_oldUp, m_Lo_j, m_Up_j, m_lhs, m_rhs; int col_idx[CAP]; double col_val[CAP];
+   havoc_ghosts(); PS_GHOST_PTRS;
+   w_DoubletonEquation(PS_ARGS, m_j, m_k, m_i, m_maxSense, m_jFixed, m_jObj, m_kObj, m_aij, m_strictLo, m_strictUp, m_newLo, m_newUp,
+                       m_oldLo, m_oldUp, m_Lo_j, m_Up_j, m_lhs, m_rhs, col_idx, col_val, col_n);
+   CANARY();
+}
+#endif
+
+/* "for every i < 8: P(i)" written out; used for index maps over the solution vectors (DIM <= 8) */
+#define ALL8(P) (P(0) && P(1) && P(2) && P(3) && P(4) && P(5) && P(6) && P(7))
+
+/* ------------------------------------------------------------------------------------------- */
+#ifdef INST_DuplicateCols
+/* Three roles (spxmainsm.hpp duplicateCols()):
+ *  m_isFirst: marker, does nothing.
+ *  m_isLast (executed first): undoes the one removeCols(perm) call: entry[i] := entry[perm[i]] for i = n-1..0 where
+ *    perm[i] >= 0.  Pre: perm is the order-preserving compaction map, -1 <= perm[i] <= i.  Post: every kept column i
+ *    holds what perm[i] held, every other entry is unchanged.
+ *  otherwise: column m_j had been merged into m_k (x_k' = x_k + scale * x_j); x_j gets a status/value, x_k may swap
+ *    roles with it: delta 0 (entry m_j was stale before).  Pre: m_j != m_k, status of x_k defined.
+ *    The internal-error throws (XMAISM05/06/08/09) depend on tolerance tests / computed values and are allowed
+ *    exactly in the two branches that contain them (x_k ZERO or BASIC). */
+#if DIM > 8
+#error "DuplicateCols contract writes the permutation precondition out for at most 8 columns"
+#endif
+#define PERM_OK(i) ((i) >= perm_n || (-1 <= perm[i] && perm[i] <= (i)))
+#define MAIN (!m_isFirst && !m_isLast)
+#define OLDK __CPROVER_old(cst[m_k])
+void w_DuplicateCols(PS_PARAMS, int m_j, int m_k, double m_loJ, double m_upJ, double m_loK, double m_upK, double m_scale,
+                     int m_isFirst, int m_isLast, int* perm, int perm_n)
+__CPROVER_requires(PS_WF && 0 <= m_j && m_j < nC && 0 <= m_k && m_k < nC && ARR_OK(perm, DIM, int) && 0 <= perm_n && perm_n <= nC && ALL8(PERM_OK))
+__CPROVER_requires(MAIN ==> (m_j != m_k && DEFINED(cst[m_k])))
+__CPROVER_requires(g_may_throw == ((MAIN && (cst[m_k] == ZERO || cst[m_k] == BASIC)) ? 2 : 0) && g_n == perm_n)
+__CPROVER_requires(GHOST_COL && GHOST_ROW)
+__CPROVER_requires(g_a == ((g_kc < perm_n && perm[g_kc] >= 0) ? perm[g_kc] : g_kc) && SAME(v_x2, x[g_a]) && SAME(v_r2, r[g_a]) && v_cs2 == cst[g_a])
+__CPROVER_assigns(W(x), W(r), W(cst))
+__CPROVER_ensures(m_isFirst ==> COL_UNCHANGED)
+__CPROVER_ensures((!m_isFirst && m_isLast) ==> (SAME(x[g_kc], v_x2) && SAME(r[g_kc], v_r2) && cst[g_kc] == v_cs2))   /* (b) */
+__CPROVER_ensures(MAIN ==> B(cst[m_j]) + B(cst[m_k]) == B(OLDK))                                                     /* (a) */
+__CPROVER_ensures(MAIN ==> (DEFINED(cst[m_j]) && DEFINED(cst[m_k])))                                                 /* (d) */
+__CPROVER_ensures((MAIN && cst[m_j] == BASIC) ==> (OLDK == BASIC && NONBASIC(cst[m_k])))
+__CPROVER_ensures((MAIN && (OLDK == ON_LOWER || OLDK == ON_UPPER || OLDK == FIXED)) ==> (cst[m_k] == OLDK && NONBASIC(cst[m_j])))
+__CPROVER_ensures((MAIN && OLDK == ON_LOWER) ==> (SAME(x[m_k], m_loK) && cst[m_j] == (m_loJ == m_upJ ? FIXED : m_scale > 0 ? ON_LOWER : ON_UPPER)))
+__CPROVER_ensures((MAIN && OLDK == ON_UPPER) ==> (SAME(x[m_k], m_upK) && cst[m_j] == (m_loJ == m_upJ ? FIXED : m_scale > 0 ? ON_UPPER : ON_LOWER)))
+__CPROVER_ensures((MAIN && OLDK == FIXED) ==> (cst[m_j] == FIXED && SAME(x[m_j], m_loJ)))
+__CPROVER_ensures((MAIN && OLDK != ZERO && cst[m_j] == ON_LOWER) ==> SAME(x[m_j], m_loJ))
+__CPROVER_ensures((MAIN && OLDK != ZERO && cst[m_j] == ON_UPPER) ==> SAME(x[m_j], m_upJ))
+__CPROVER_ensures((MAIN && cst[m_j] == ZERO) ==> x[m_j] == 0.0)
+__CPROVER_ensures((MAIN && g_kc != m_j && g_kc != m_k) ==> COL_UNCHANGED)                                            /* (c) */
+;
+void h_DuplicateCols(void)
+{
+   PS_LOCALS; int m_j, m_k, m_isFirst, m_isLast, perm_n; double m_loJ, m_upJ, m_loK, m_upK, m_scale; int perm[DIM];
+   havoc_ghosts(); PS_GHOST_PTRS; gp_i1 = perm;
+   w_DuplicateCols(PS_ARGS, m_j, m_k, m_loJ, m_upJ, m_loK, m_upK, m_scale, m_isFirst, m_isLast, perm, perm_n);
+   CANARY();
+}
+#endif
+
+/* ------------------------------------------------------------------------------------------- */
+#ifdef INST_DuplicateRows
+/* One step per class of duplicate (parallel) rows: m_scale lists the n rows of the class (the kept row m_i among
+ * them, pairwise distinct); the other n-1 rows were removed, all classes by ONE removeRows(perm) call that the
+ * step with m_isLast (executed first) undoes: entry[i] := entry[perm[i]] for i = np-1..0 where perm[i] >= 0.
+ * Let r0 be the status of the kept row in the reduced LP (after that undo).  Afterwards
+ *   r0 BASIC      : all n rows BASIC;
+ *   r0 non-basic  : exactly one of the n rows non-basic (m_i itself, or the row that supplied the tightest side,
+ *                   m_maxLhsIdx / m_minRhsIdx, in which case m_i becomes BASIC), all others BASIC;
+ * i.e. the n rows carry n-1 more BASIC entries than the kept row alone did: n-1 rows re-inserted.  "All" and "at
+ * most one" are stated at ghost positions g_k2, g_kc2 of m_scale; "at least one" names the three candidates.
+ * Every row made BASIC gets dual = its row objective.
+ * Pre (constructor): m_rowObj, m_isLhsEqualRhs parallel to m_scale; m_rowObj's entry for m_i equals m_i_rowObj
+ * (both are lp.rowObj(m_i)); perm is the order-preserving compaction map (-1 <= perm[i] <= i) and keeps m_i. */
+#if DIM > 8
+#error "DuplicateRows contract writes the permutation precondition out for at most 8 rows"
+#endif
+#define PERM_OK(i) ((i) >= perm_n || (-1 <= perm[i] && perm[i] <= (i)))
+#define SRC(i) ((m_isLast && (i) < perm_n && perm[i] >= 0) ? perm[i] : (i))
+#define RP rst[scale_idx[g_k2]]
+#define RQ rst[scale_idx[g_kc2]]
+#define CAND(m) (0 <= (m) && (m) < nR && (m) != m_i && SV_HAS(scale_idx, scale_n, m) && rst[m] != BASIC)
+void w_DuplicateRows(PS_PARAMS, int m_i, double m_i_rowObj, int m_maxLhsIdx, int m_minRhsIdx, int m_maxSense, int m_isFirst,
+                     int m_isLast, int m_fixed, int m_nCols, int* scale_idx, double* scale_val, int scale_n,
+                     int* robj_idx, double* robj_val, int* rIdxLocalOld, int* perm, int perm_n, _Bool* isLhsEqualRhs)
+__CPROVER_requires(PS_WF && 0 <= m_i && m_i < nR && SV_WF(scale_idx, scale_val, scale_n) && SV_WF(robj_idx, robj_val, scale_n)
+                   && ARR_OK(rIdxLocalOld, CAP, int) && ARR_OK(isLhsEqualRhs, CAP, _Bool) && ARR_OK(perm, DIM, int))
+__CPROVER_requires(1 <= scale_n && SV_DISTINCT(scale_idx, scale_n) && SV_HAS(scale_idx, scale_n, m_i))
+__CPROVER_requires(0 <= perm_n && perm_n <= nR && ALL8(PERM_OK) && (m_isLast ==> (m_i < perm_n && perm[m_i] >= 0)))
+__CPROVER_requires(SAME(SV_GET(scale_idx, robj_val, scale_n, m_i), m_i_rowObj) && SAME(v_x2, m_i_rowObj))
+__CPROVER_requires(g_n == scale_n && g_n2 == perm_n && g_a == m_i && g_c == m_maxLhsIdx && g_d == m_minRhsIdx && g_e == SRC(m_i)
+                   && v_rs2 == rst[g_e] && DEFINED(v_rs2))
+__CPROVER_requires(GHOST_COL && GHOST_ROW && g_in == (SV_HAS(scale_idx, scale_n, g_kr) ? 1 : 0)
+                   && g_b == SRC(g_kr) && SAME(v_y2, y[g_b]) && SAME(v_s2, s[g_b]) && v_rs3 == rst[g_b])
+__CPROVER_requires(0 <= g_k2 && g_k2 < scale_n && 0 <= g_kc2 && g_kc2 < scale_n)
+__CPROVER_assigns(W(y), W(s), W(rst))
+/* (a) */
+__CPROVER_ensures(v_rs2 == BASIC ==> RP == BASIC)
+__CPROVER_ensures((v_rs2 != BASIC && g_k2 != g_kc2 && RP != BASIC) ==> RQ == BASIC)
+__CPROVER_ensures(v_rs2 != BASIC ==> (rst[m_i] != BASIC || CAND(m_maxLhsIdx) || CAND(m_minRhsIdx)))
+/* (d) */
+__CPROVER_ensures(RP == BASIC ==> SAME(y[scale_idx[g_k2]], robj_val[g_k2]))
+__CPROVER_ensures(DEFINED(RP))
+__CPROVER_ensures((RP != BASIC && scale_idx[g_k2] != m_i) ==> (RP == FIXED || RP == ON_LOWER || RP == ON_UPPER))
+/* (b),(c): rows outside the class hold what their source position held (perm undo), or are unchanged */
+__CPROVER_ensures(!g_in ==> (SAME(y[g_kr], v_y2) && SAME(s[g_kr], v_s2) && rst[g_kr] == v_rs3))
+;
+void h_DuplicateRows(void)
+{
+   PS_LOCALS; int m_i, m_maxLhsIdx, m_minRhsIdx, m_maxSense, m_isFirst, m_isLast, m_fixed, m_nCols, scale_n, perm_n; double m_i_rowObj;
+   int scale_idx[CAP]; double scale_val[CAP]; int robj_idx[CAP]; double robj_val[CAP]; int rIdxLocalOld[CAP]; int perm[DIM]; _Bool isLhsEqualRhs[CAP];
+   havoc_ghosts(); PS_GHOST_PTRS; gp_i1 = scale_idx; gp_i2 = perm; gp_d1 = robj_val;
+   w_DuplicateRows(PS_ARGS, m_i, m_i_rowObj, m_maxLhsIdx, m_minRhsIdx, m_maxSense, m_isFirst, m_isLast, m_fixed, m_nCols,
+                   scale_idx, scale_val, scale_n, robj_idx, robj_val, rIdxLocalOld, perm, perm_n, isLhsEqualRhs);
+   CANARY();
+}
+#endif
